@@ -64,3 +64,125 @@ def _(self, decoder: Obj("Decoder")) -> Int:
     ensures(implies(self.number_of_bits is not None and not self.has_extension_marker,
                     decoder.number_of_bits == old(decoder.number_of_bits) - self.number_of_bits
                     and result >= self.minimum and result < self.minimum + pow2(self.number_of_bits)))
+
+
+fields("OctetString", minimum=Union(Int, Lit('MIN'), NoneT), maximum=Union(Int, Lit('MAX'), NoneT),
+       has_extension_marker=Bool, number_of_bits=Opt(Nat))
+invariant("OctetString", implies(self.number_of_bits is not None,
+                                 py_is_int(self.minimum) and py_is_int(self.maximum) and 0 <= self.minimum
+                                 and self.minimum <= self.maximum and self.maximum <= 65535
+                                 and self.number_of_bits == blen(self.maximum - self.minimum)))
+fields("BitString", minimum=Opt(Int), maximum=Opt(Int), has_extension_marker=Bool, number_of_bits=Opt(Nat),
+       has_named_bits=Bool)
+invariant("BitString", implies(self.number_of_bits is not None,
+                               self.minimum is not None and self.maximum is not None and 0 <= self.minimum
+                               and self.minimum <= self.maximum and self.maximum <= 65535
+                               and self.number_of_bits == blen(self.maximum - self.minimum)))
+
+
+@contract("asn1tools/codecs/per.py", "OctetString.decode_unbound", abstract=True)
+def _(self, decoder: Obj("Decoder")) -> Bytes:
+    # assumed (generator based fragment loop, outside the subset): checked reads only
+    raises(OutOfDataError)
+    raises(DecodeError)
+    assigns(decoder)
+    ensures(decoder.number_of_bits <= old(decoder.number_of_bits) and decoder.value == old(decoder.value))
+
+
+@contract("asn1tools/codecs/per.py", "BitString.decode_unbound", abstract=True)
+def _(self, decoder: Obj("Decoder")) -> Tup(Bytes, Nat):
+    raises(OutOfDataError)
+    raises(DecodeError)
+    assigns(decoder)
+    ensures(decoder.number_of_bits <= old(decoder.number_of_bits) and decoder.value == old(decoder.value))
+
+
+@contract("OctetString.decode", props=["C05", "C16", "C08", "C01"])
+def _(self, decoder: Obj("Decoder")) -> Bytes:
+    # X.691 17 (unaligned): fixed size: exactly `size` octets and no length; bounded size: a length field of
+    # blen(ub - lb) bits holding n - lb, then n octets; every read is checked (truncation -> OutOfDataError, C16)
+    opaque("ld_size", "ld_val", "ld_bad")
+    raises(OutOfDataError)
+    raises(DecodeError)
+    assigns(decoder)
+    ensures(decoder.number_of_bits <= old(decoder.number_of_bits) and decoder.value == old(decoder.value))
+    ensures(implies(not self.has_extension_marker and self.number_of_bits is not None and self.minimum == self.maximum,
+                    len(result) == self.minimum
+                    and decoder.number_of_bits == old(decoder.number_of_bits) - 8 * self.minimum))
+    ensures(implies(not self.has_extension_marker and self.number_of_bits is not None and self.minimum != self.maximum,
+                    len(result) == self.minimum
+                    + bits_val(decoder.value[decoder.total_number_of_bits - old(decoder.number_of_bits):
+                                             decoder.total_number_of_bits - old(decoder.number_of_bits) + self.number_of_bits])
+                    and decoder.number_of_bits == old(decoder.number_of_bits) - self.number_of_bits - 8 * len(result)))
+
+
+@contract("BitString.decode", props=["C05", "C16", "C08", "C01"])
+def _(self, decoder: Obj("Decoder")) -> Tup(Bytes, Nat):
+    # X.691 16 (unaligned): fixed size: exactly `size` bits; bounded size: length field then that many bits
+    raises(OutOfDataError)
+    raises(DecodeError)
+    raises(NotImplementedError)
+    assigns(decoder)
+    ensures(decoder.number_of_bits <= old(decoder.number_of_bits) and decoder.value == old(decoder.value))
+    ensures(implies(not self.has_extension_marker and self.number_of_bits is not None and self.minimum == self.maximum,
+                    result[1] == self.minimum and len(result[0]) == (self.minimum + 7) // 8
+                    and decoder.number_of_bits == old(decoder.number_of_bits) - self.minimum))
+    ensures(implies(not self.has_extension_marker and self.number_of_bits is not None and self.minimum != self.maximum,
+                    result[1] == self.minimum
+                    + bits_val(decoder.value[decoder.total_number_of_bits - old(decoder.number_of_bits):
+                                             decoder.total_number_of_bits - old(decoder.number_of_bits) + self.number_of_bits])
+                    and decoder.number_of_bits == old(decoder.number_of_bits) - self.number_of_bits - result[1]))
+
+
+@contract("asn1tools/codecs/per.py", "is_in_size_range", props=["C05", "C01", "C12"])
+def _(minimum: Union(Int, Lit('MIN'), NoneT), maximum: Union(Int, Lit('MAX'), NoneT), size: Nat) -> Bool:
+    # total on open bounds: never a TypeError from comparing a number with the 'MIN'/'MAX' sentinel (F24)
+    ensures(result == in_size_range(minimum, maximum, size))
+
+
+@contract("Encoder.align", props=["C05", "C01"])
+def _(self):
+    # unaligned PER: alignment is a no-op
+    ensures(self.number_of_bits == old(self.number_of_bits) and self.value == old(self.value)
+            and self.chunks_number_of_bits == old(self.chunks_number_of_bits))
+
+
+@contract("Decoder.align", props=["C05", "C16", "C08"])
+def _(self):
+    ensures(self.number_of_bits == old(self.number_of_bits) and self.value == old(self.value))
+
+
+@contract("asn1tools/codecs/per.py", "OctetString.encode_unbound", abstract=True)
+def _(self, data: Bytes, encoder: Obj("Encoder")):
+    # assumed (generator based fragment loop, outside the subset): only appends
+    assigns(encoder)
+    ensures(encoder.chunks_number_of_bits + encoder.number_of_bits
+            >= old(encoder.chunks_number_of_bits) + old(encoder.number_of_bits))
+
+
+@contract("OctetString.encode", props=["C05", "C01"])
+def _(self, data: Bytes, encoder: Obj("Encoder")):
+    # X.691 17 (unaligned): fixed size: the octets, no length; bounded size: n - lb in blen(ub - lb) bits, then the
+    # octets; outside an extensible root: extension bit 1, a general length determinant, the octets
+    requires(encoder.number_of_bits <= 3000)
+    requires(implies(self.number_of_bits is not None and not self.has_extension_marker,
+                     self.minimum <= len(data) and len(data) <= self.maximum))      # established by check_constraints (C11)
+    use(blen_upper(len(data) - self.minimum))
+    use(blen_mono(len(data) - self.minimum, self.maximum - self.minimum))
+    use(blen_le(self.maximum - self.minimum, 16))
+    use(pow2_mono(blen(len(data) - self.minimum), blen(self.maximum - self.minimum)))
+    assigns(encoder)
+    ensures(implies(not self.has_extension_marker and self.number_of_bits is not None and self.minimum == self.maximum,
+                    encoder.number_of_bits == old(encoder.number_of_bits) + 8 * len(data)
+                    and encoder.value == old(encoder.value) * pow2(8 * len(data)) + be_val(list(data))))
+    ensures(implies(not self.has_extension_marker and self.number_of_bits is not None and self.minimum != self.maximum,
+                    encoder.number_of_bits == old(encoder.number_of_bits) + self.number_of_bits + 8 * len(data)
+                    and encoder.value == (old(encoder.value) * pow2(self.number_of_bits) + (len(data) - self.minimum))
+                    * pow2(8 * len(data)) + be_val(list(data))))
+    ensures(implies(self.has_extension_marker and self.number_of_bits is not None
+                    and self.minimum <= len(data) and len(data) <= self.maximum and self.minimum == self.maximum,
+                    encoder.number_of_bits == old(encoder.number_of_bits) + 1 + 8 * len(data)))
+    # outside the root of an extensible constraint (open bounds included): extension bit 1, general length, octets
+    ensures(implies(self.has_extension_marker and not in_size_range(self.minimum, self.maximum, len(data))
+                    and len(data) < 128,
+                    encoder.number_of_bits == old(encoder.number_of_bits) + 1 + 8 + 8 * len(data)))
